@@ -122,6 +122,8 @@ def gen_points(gm: lang.GModel, rng, n):
         else:
             y = y_decl * rng.uniform(0.6, 1.6, size=ny) + rng.normal(scale=0.4, size=ny) * (i % 2)
         t = 0.0 if gm.kind == "AE" else float(rng.choice([0.0, 0.37, 1.0, 2.2, 5.0, 9.0] + ts_nodes)) if i else 0.0
+        if i >= 3 and i % 2 == 1 and gm.kind != "AE":
+            t = pts[-1][0]          # the same instant as the previous call, with other parameter values: nothing may be remembered per t
         overrides = {}
         if i >= 2:
             for (name, kind, data) in gm.pars:
